@@ -85,6 +85,14 @@ def _safe_validate(vtype, val, name):
         return None
 
 
+def _as_value(err):
+    # The error becomes a (stored) value. Drop the traceback it picked up
+    # when it was raised: it would keep every frame on the way - and with
+    # them arrays that contain the error itself - alive for as long as the
+    # value is stored, a little more with every evaluation.
+    return err.with_traceback(None)
+
+
 def validate_args(func):
 
     @functools.wraps(func)
@@ -99,14 +107,14 @@ def validate_args(func):
                 bound.arguments[pname] = _validate(
                     sig.parameters[pname].annotation, value, pname)
             except xlerrors.ExcelError as err:
-                return err
+                return _as_value(err)
         # 2. Run the function to compute the result.
         try:
             res = func(*bound.args, **bound.kwargs)
         except xlerrors.ExcelError as err:
             # Never crash on Excel errors as we want to store them as the cell
             # value.
-            return err
+            return _as_value(err)
         # 3. Convert the result to an Excel type.
         return _validate(sig.return_annotation, res, 'return')
 
